@@ -78,7 +78,9 @@ mutant("c11-unflatten-ref-longer", ["C11"], [
 mutant("c11-flatten-mut-from-shared-cast", ["C11"], [("src/sequence.rs", "    type Output = &'a mut GenericArray<T, Prod<N, M>>;\n\n    #[inline(always)]\n    fn flatten(self) -> Self::Output {\n        unsafe { mem::transmute(self) }", "    type Output = &'a mut GenericArray<T, Prod<N, M>>;\n\n    #[inline(always)]\n    fn flatten(self) -> Self::Output {\n        unsafe { mem::transmute(&mut self[M::USIZE - M::USIZE.min(1)]) }")], "C11.E")
 mutant("c11-unflatten-tcopy-self-dropped", ["C11"], [("src/sequence.rs", "    fn unflatten(self) -> Self::Output {\n        unsafe { crate::const_transmute(self) }", "    fn unflatten(self) -> Self::Output {\n        unsafe { mem::transmute_copy(&self) }")], "C11.E")
 mutant("c11-flatten-tcopy-inner-only", ["C11"], [("src/sequence.rs", "    fn flatten(self) -> Self::Output {\n        unsafe { crate::const_transmute(self) }", "    fn flatten(self) -> Self::Output {\n        let this = mem::ManuallyDrop::new(self);\n        unsafe { mem::transmute_copy(&this[M::USIZE - M::USIZE.min(1)]) }")], "C11.E")
-benign("c11-unflatten-md-tcopy", ["C11"], [("src/sequence.rs", "    fn unflatten(self) -> Self::Output {\n        unsafe { crate::const_transmute(self) }", "    fn unflatten(self) -> Self::Output {\n        let this = mem::ManuallyDrop::new(self);\n        unsafe { mem::transmute_copy(&this) }")])
+# reclassified in round 22: without const_transmute's size comparison the by-value unflatten returns a truncated array (and leaks the tail) outside its
+# documented domain, where it used to panic - the change of seed S247, confirmed there by a demonstration; it is a mutant of the domain clause now
+mutant("c11-unflatten-md-tcopy", ["C11"], [("src/sequence.rs", "    fn unflatten(self) -> Self::Output {\n        unsafe { crate::const_transmute(self) }", "    fn unflatten(self) -> Self::Output {\n        let this = mem::ManuallyDrop::new(self);\n        unsafe { mem::transmute_copy(&this) }")], "C11.E")
 benign("c11-flatten-md-ptr-read", ["C11"], [("src/sequence.rs", "    fn flatten(self) -> Self::Output {\n        unsafe { crate::const_transmute(self) }", "    fn flatten(self) -> Self::Output {\n        let this = mem::ManuallyDrop::new(self);\n        unsafe { ptr::read(&*this as *const GenericArray<GenericArray<T, N>, M> as *const Self::Output) }")])
 benign("c11-unflatten-ref-ptr-deref", ["C11"], [("src/sequence.rs", "    type Output = &'a GenericArray<GenericArray<T, N>, Quot<NM, N>>;\n\n    #[inline(always)]\n    fn unflatten(self) -> Self::Output {\n        unsafe { mem::transmute(self) }", "    type Output = &'a GenericArray<GenericArray<T, N>, Quot<NM, N>>;\n\n    #[inline(always)]\n    fn unflatten(self) -> Self::Output {\n        unsafe { &*(self as *const GenericArray<T, NM> as *const GenericArray<GenericArray<T, N>, Quot<NM, N>>) }")])
 benign("c11-flatten-ref-ptr-cast", ["C11"], [("src/sequence.rs", "    type Output = &'a GenericArray<T, Prod<N, M>>;\n\n    #[inline(always)]\n    fn flatten(self) -> Self::Output {\n        unsafe { mem::transmute(self) }", "    type Output = &'a GenericArray<T, Prod<N, M>>;\n\n    #[inline(always)]\n    fn flatten(self) -> Self::Output {\n        unsafe { mem::transmute::<&'a GenericArray<GenericArray<T, N>, M>, Self::Output>(self) }")])
